@@ -20,7 +20,7 @@ func init() {
 		return GuardEnum(func() Result { return RunC06(&p, false) }), nil
 	}
 	harness.Specs["C06"] = &harness.PropSpec{
-		ID: "C06", Test: "TestC06", Kind: "queue", Level: "fault_enumeration",
+		ID: "C06", Test: "TestC06", Kind: "queue", Level: "fault_enumeration", FuzzTargets: []string{"FuzzC06Faults"}, FuzzSeconds: 180,
 		Quick: 256, Thorough: 400,
 		Rule: "three parts. (3) I/O failures: generated histories re-executed under 8 fault plans each (write calls failing before effect or after a short write, sync " +
 			"calls failing, bursts of 1-3, hitting the flush and ACK transactions): the affected writer call / ACK returns an error (model rules of a full file), " +
